@@ -67,6 +67,20 @@ func (d *Decoder) resetFragments() {
 	d.fragmentsSize = 0
 }
 
+// checkFragmentsSize makes sure that the fragments received so far,
+// together with the slices already buffered, do not exceed the maximum frame size.
+func (d *Decoder) checkFragmentsSize(addSize int) error {
+	if (d.sliceBufferSize + d.fragmentsSize + addSize) > maxFrameSize {
+		errSize := d.sliceBufferSize + d.fragmentsSize + addSize
+		d.resetFragments()
+		d.sliceBuffer = nil
+		d.sliceBufferSize = 0
+		return fmt.Errorf("frame size (%d) is too big, maximum is %d",
+			errSize, maxFrameSize)
+	}
+	return nil
+}
+
 func (d *Decoder) decodeSlice(pkt *rtp.Packet) ([]byte, error) {
 	if len(pkt.Payload) < 4 {
 		d.resetFragments()
@@ -121,6 +135,11 @@ func (d *Decoder) decodeSlice(pkt *rtp.Packet) ([]byte, error) {
 			return nil, fmt.Errorf("discarding frame since a RTP packet is missing")
 		}
 
+		err := d.checkFragmentsSize(len(pkt.Payload[4:]))
+		if err != nil {
+			return nil, err
+		}
+
 		d.fragments = append(d.fragments, pkt.Payload[4:])
 		d.fragmentsSize += len(pkt.Payload[4:])
 
@@ -136,6 +155,11 @@ func (d *Decoder) decodeSlice(pkt *rtp.Packet) ([]byte, error) {
 		if pkt.SequenceNumber != d.fragmentNextSeqNum {
 			d.resetFragments()
 			return nil, fmt.Errorf("discarding frame since a RTP packet is missing")
+		}
+
+		err := d.checkFragmentsSize(len(pkt.Payload[4:]))
+		if err != nil {
+			return nil, err
 		}
 
 		d.fragments = append(d.fragments, pkt.Payload[4:])
